@@ -15,7 +15,7 @@ func init() { Registry["C17"] = C17 }
 // C17: a request's outcome does not depend on other requests, concurrent or earlier.
 func C17(c *Ctx, r *report.Run) error {
 	r.Rule = "the emitted server and client files of multi-service units are instrumented (package sync -> scheduler-aware shim; a scheduling point before every statement touching a package-level variable, a closure-captured variable or a receiver field); a controlled scheduler runs 2 and 3 concurrent calls (every unordered pair of the call alphabet incl. the same call twice, and triples; calls = valid / per-call header + protobuf content type / other value / rule-violating / missing header, on every route of every service, sharing one generated client per service and one mux; validator Once cold at the start of every execution) under every interleaving with at most p preemptions (p=2 quick, 3 thorough); per execution: no two co-enabled conflicting accesses (data race), no deadlock, no panic, and every call's observation (status, body, request seen by the handler, RPC identity, headers as received, client result) equals the observation of the same call issued alone; plus every call sequence up to depth 2 (3) on one shared instance vs isolated; distinct = (unit, scenario, outcome)"
-	specs := []*spec.Spec{univ.CoreMulti(), univ.CoreRest(), univ.CoreQuery(), univ.CoreHdrOverride(), univ.CoreHeaders(), univ.XSharedMethodHeader()}
+	specs := []*spec.Spec{univ.CoreMulti(), univ.CoreRest(), univ.CoreQuery(), univ.CoreHdrOverride(), univ.CoreHeaders(), univ.XSharedMethodHeader(), univ.XServiceHeaderCounts(2, 3)}
 	r.Programs = len(specs)
 	w, err := ws.Build(c.Bins, specs, ws.Options{Variant: ws.HC, Tag: "c17", Harness: true, Instrument: true, Mock: true, MockShim: true})
 	if err != nil {
